@@ -766,7 +766,14 @@ func runSuperfluid(t *testing.T, seed int64, n int, dir string) {
 		e.setup(t, su)
 		done++
 		nops := 40 + r.Intn(120)
+		if r.Intn(2) == 0 { // an unpool whitelist (set by an upgrade handler on mainnet) so that its loss on import shows
+			h.App.SuperfluidKeeper.SetUnpoolAllowedPools(h.Ctx, []uint64{1, 2})
+		}
 		for i := 0; i < nops && done < n; i++ {
+			if i > 3 && r.Intn(12) == 0 {
+				e.do(sfOp{kind: "exportimport", snd: -1})
+				done++
+			}
 			if op, ok := e.choose(); ok {
 				e.do(op)
 				done++
@@ -1132,6 +1139,74 @@ func (e *sfEngine) do(op sfOp) {
 		e.refreshedAll = err == nil && !pn
 		if e.refreshedAll {
 			e.opsSinceEp = map[string]int{}
+		}
+	case "exportimport":
+		// the REAL ExportGenesis (through the JSON codec), every key of the superfluid store deleted, the risk factor
+		// param overwritten, then the REAL InitGenesis.  lockup / staking / bank / incentives are other modules.
+		sk := h.App.SuperfluidKeeper
+		cdc := h.App.AppCodec()
+		rawOf := func(ctx sdk.Context) []string {
+			store := ctx.KVStore(h.App.GetKey(sftypes.StoreKey))
+			it := store.Iterator(nil, nil)
+			defer it.Close()
+			var out []string
+			for ; it.Valid(); it.Next() {
+				out = append(out, fmt.Sprintf("%x=%x", it.Key(), it.Value()))
+			}
+			return out
+		}
+		pre := rawOf(h.Ctx)
+		preParams := sk.GetParams(h.Ctx)
+		err, pn := e.atomic(func(ctx sdk.Context) error {
+			bz := cdc.MustMarshalJSON(sk.ExportGenesis(ctx))
+			store := ctx.KVStore(h.App.GetKey(sftypes.StoreKey))
+			var keys [][]byte
+			it := store.Iterator(nil, nil)
+			for ; it.Valid(); it.Next() {
+				keys = append(keys, append([]byte{}, it.Key()...))
+			}
+			it.Close()
+			for _, k := range keys {
+				store.Delete(k)
+			}
+			sk.SetParams(ctx, sftypes.Params{MinimumRiskFactor: osmomath.MustNewDecFromStr("0.123")})
+			var gs sftypes.GenesisState
+			cdc.MustUnmarshalJSON(bz, &gs)
+			sk.InitGenesis(ctx, gs)
+			return nil
+		})
+		line = "superfluid exportimport"
+		res = result(err, pn, nil)
+		if pn {
+			o.Fail("superfluid:export-import:panics", "")
+		} else {
+			post := rawOf(h.Ctx)
+			postSet := map[string]bool{}
+			for _, x := range post {
+				postSet[x] = true
+			}
+			unpoolPfx := fmt.Sprintf("%x=", sftypes.KeyUnpoolAllowedPools)
+			var missing []string
+			for _, x := range pre {
+				if !postSet[x] {
+					if strings.HasPrefix(x, unpoolPfx) {
+						if os.Getenv("VERIF_EXPORT_IMPORT_LOSSES") != "count" {
+							o.Fail("superfluid:export-import:unpool-whitelist-not-exported", x)
+						} else {
+							o.Count("exportimport.LOSS.superfluid:export-import:unpool-whitelist-not-exported")
+						}
+						continue
+					}
+					missing = append(missing, x)
+				}
+				delete(postSet, x)
+			}
+			if len(missing) > 0 || len(postSet) > 0 {
+				o.Fail("superfluid:export-import:store-differs", fmt.Sprintf("missing %v extra %d", missing, len(postSet)))
+			}
+			if p := sk.GetParams(h.Ctx); !p.MinimumRiskFactor.Equal(preParams.MinimumRiskFactor) {
+				o.Fail("superfluid:export-import:params", fmt.Sprintf("%s -> %s", preParams.MinimumRiskFactor, p.MinimumRiskFactor))
+			}
 		}
 	default:
 		panic("unknown op " + op.kind)
